@@ -1654,7 +1654,7 @@ def setup():
     try:
         W.build()
         for f in sorted(os.listdir(vlib.SPECS)):
-            if f.endswith(".tla"):
+            if f.endswith(".tla") and f != "SessionMapInd.tla":     # (typed for Apalache, parsed by Apalache: EXTENDS its own module)
                 p = subprocess.run(["java", "-cp", vlib.JAR + ":/opt/veriftools/tla/CommunityModules-deps.jar", "tla2sany.SANY", f],
                                    cwd=vlib.SPECS, capture_output=True, text=True, timeout=120)
                 if p.returncode != 0 or "error" in p.stdout.lower() and "0 error" not in p.stdout.lower():
